@@ -15,6 +15,13 @@ MAYPANIC_API = [
     (r'^std::vec::Vec::<T, A>::(remove|insert|swap_remove|drain|split_off|truncate)$', 'vec-op'),
     (r'^byteorder::ByteOrder::read_|as byteorder::ByteOrder>::read_', 'byteorder-read'),
     (r"^pnet::packet::.*::Mutable\w+Packet::<'a>::(set_payload|populate|set_options)$", 'pnet-fill'),
+    # pnet 0.33: the only length function of pnet_packet with unchecked arithmetic is ndp_option_payload_length ((len * 8) - 2 in u8);
+    # it is evaluated by every accessor that parses NDP options (incl. the derived Debug of the NDP message packets)
+    (r"^pnet::packet::icmpv6::ndp::\w+Packet::<'a>::(get_options|get_options_iter)$", 'pnet-ndp-options'),
+    (r"^pnet::packet::icmpv6::ndp::(Mutable)?NdpOptionPacket::<'a>::(get_data|get_data_raw)$", 'pnet-ndp-options'),
+    (r"^<pnet::packet::icmpv6::ndp::(Mutable)?NdpOptionPacket<'\w+> as pnet::packet::(Packet|PacketSize|MutablePacket)>::", 'pnet-ndp-options'),
+    (r"^<pnet::packet::icmpv6::ndp::NdpOptionIterable<'\w+> as std::iter::Iterator>::", 'pnet-ndp-options'),
+    (r"^<pnet::packet::icmpv6::ndp::(Mutable)?(NeighborSolicit|NeighborAdvert|RouterSolicit|RouterAdvert|Redirect|NdpOption)Packet<'\w+> as std::fmt::Debug>::fmt$", 'pnet-ndp-options'),
     (r'^std::string::String::from_utf8_lossy$', None),
     (r'^core::num::<impl \w+>::(pow|abs|div_euclid|rem_euclid)$', 'arith-api'),
     (r'^core::char::methods::<impl char>::from_digit$', 'from_digit'),
@@ -117,6 +124,9 @@ def sites(F, cone):
                 c = (t['resolved'] or [t['callee']])[0]
                 decl = t['callee']
                 k = classify_call(c) or classify_call(decl)
+                fa = F.fmt_arg_target(f, bi)
+                if fa and fa not in F.fns and classify_call(fa):
+                    k, c = classify_call(fa), fa
                 if k:
                     args = [f.argv(bi, i) for i in range(len(t['args']))]
                     yield dict(fid=fid, bi=bi, kind=k, callee=c, args=args, loc=f.loc(bi), f=f, macro=t['span'].get('macro', ''))
